@@ -428,7 +428,7 @@ fn pick_id(r: &mut StdRng, sys: &Sys) -> u32 {
 
 fn gen_op(r: &mut StdRng, sys: &Sys, xid: &mut u32) -> Value {
     let now = seq(&sys.e) as i64;
-    let dt = *pick(r, &[0i64, 0, 0, 0, 1, 1, 2, 3]);
+    let dt = if r.gen_ratio(1, 25) { 3000 } else { *pick(r, &[0i64, 0, 0, 0, 1, 1, 2, 3]) };
     let t = now + dt;
     let have = !sys.touched.is_empty() || !sys.batches.is_empty();
     let kinds = ["mint", "mint", "transfer", "transfer", "transfer_from", "transfer_from", "transfer_from", "burn", "burn_from",
